@@ -93,25 +93,47 @@ def check_config(ctx, config, orc, counts):
             if gs[0] != "num" or gs[2] != amt:
                 ctx.fail("scale-generated", inst, "generated scale %r is not a constant of the amount type %s" % (gs, amt), uw)
                 continue
-            if amt == "f64":
-                if u.scale_kind == "int":
-                    want_v = Fraction(float(int(u.scale)))
-                else:
-                    want_v = Fraction(fold.f64_of_text(u.scale_text))
+            computed = u.scale is None
+            if computed:
+                # the scale is not written as a literal on this attribute (an attribute form this checker does not
+                # know, e.g. a scale computed by the macro): nothing to compare the wiring with, so the generated
+                # constant itself is held against the published definition below
+                ctx.extra.setdefault("scales_not_written_as_literals", []).append(inst)
             else:
-                want_v = u.scale
-            ctx.ob("scale-generated", inst, gs[1] == want_v,
-                   "generated scale constant %s (%s) differs from the literal written on this unit's attribute: %s -> %s"
-                   % (gs[1], gs[3], u.scale_text, want_v), uw)
+                if amt == "f64":
+                    if u.scale_kind == "int":
+                        want_v = Fraction(float(int(u.scale)))
+                    else:
+                        want_v = Fraction(fold.f64_of_text(u.scale_text))
+                else:
+                    want_v = u.scale
+                ctx.ob("scale-generated", inst, gs[1] == want_v,
+                       "generated scale constant %s (%s) differs from the literal written on this unit's attribute: %s -> %s"
+                       % (gs[1], gs[3], u.scale_text, want_v), uw)
             if gs[1] <= 0:
                 ctx.fail("scale-positive", inst, "scale %s is not positive" % gs[1], uw)
             # 6. reference unit has scale one
             if u.is_ref:
-                ctx.ob("ref-scale-one", inst, gs[1] == 1 and u.scale == 1, "reference unit scale is %s" % gs[1], uw)
+                ctx.ob("ref-scale-one", inst, gs[1] == 1 and u.scale in (1, None), "reference unit scale is %s" % gs[1], uw)
                 ctx.ob("ref-unit", inst, q.ref_unit_lsu == var and q.ref_unit_hru == var,
                        "REF_UNIT constants are %s / %s, declared reference unit %s" % (q.ref_unit_lsu, q.ref_unit_hru, var), uw)
             # 5. definition
-            if ou is not None and ou.value is not None:
+            if computed and ou is not None and ou.value is not None:
+                dv = ou.value
+                if ou.exact and oracle.terminating(dv):
+                    want_g = Fraction(float(dv)) if amt == "f64" else dv
+                    ctx.ob("definition", "%s/%s" % (qlabel, u.ident), gs[1] == want_g,
+                           "generated scale %s (%.17g) but the published definition (%s) gives exactly %s"
+                           % (gs[1], float(gs[1]), ou.expr, dv), uw)
+                else:
+                    err = abs(gs[1] - dv)
+                    bound = TWO52 * Fraction(3, 2) if amt == "f64" else TWO52
+                    ctx.ob("definition", "%s/%s" % (qlabel, u.ident), err <= bound * abs(dv),
+                           "generated scale %.17g deviates from the published definition (%s = %.20g) by %.3g relative (bound %.3g)"
+                           % (float(gs[1]), ou.expr, float(dv), float(err / abs(dv)), float(bound)), uw)
+            elif computed:
+                ctx.unverified.append("%s::%s: scale neither written as a literal nor known to the oracle" % (q.path, u.ident))
+            elif ou is not None and ou.value is not None:
                 lit = u.scale
                 dv = ou.value
                 if ou.exact and oracle.terminating(dv):
@@ -123,7 +145,7 @@ def check_config(ctx, config, orc, counts):
                     ctx.ob("definition", "%s/%s" % (qlabel, u.ident), err <= TWO52 * abs(dv),
                            "declared scale %s deviates from the published definition (%s = %.20g) by %.3g relative (bound 2^-52 = %.3g)"
                            % (u.scale_text, ou.expr, float(dv), float(err / abs(dv)), float(TWO52)), uw)
-            if u.prefix is not None and u.prefix in pexp:
+            if u.prefix is not None and u.prefix in pexp and not computed:
                 si_rows.append((u, pexp[u.prefix]))
         # 7. SI consistency (pairwise, exact)
         for i in range(len(si_rows)):
